@@ -285,7 +285,7 @@ func init() {
 		Gen:   c01GenBytes,
 		Check: c01Check,
 		Class: c01Class,
-		Quick: 20000, Thorough: 300000, FuzzSecs: 60,
+		Quick: 20000, Thorough: 150000, FuzzSecs: 60,
 		Timeout: 20 * time.Second,
 		Known:   known,
 	})
@@ -304,7 +304,7 @@ func init() {
 		Gen:   c01GenMutated,
 		Check: c01Check,
 		Class: c01Class,
-		Quick: 8000, Thorough: 150000, FuzzSecs: 60,
+		Quick: 8000, Thorough: 80000, FuzzSecs: 60,
 		Timeout: 20 * time.Second,
 	})
 }
